@@ -1618,7 +1618,10 @@ static void DecodeINSS_EXTS(Word Code) {
             return;
         }
 
-        Length = EvalStrIntExpressionWithResult(&ArgStr[4], UInt5, &EvalResult);
+        /* the field is 1..32 bits long (encoded as length - 1), so 32 must pass the
+           evaluation and be left to the range check below: */
+
+        Length = EvalStrIntExpressionWithResult(&ArgStr[4], UInt6, &EvalResult);
         if (!EvalResult.OK) {
             return;
         }
